@@ -113,7 +113,7 @@ end Fosite.Props.C03
 namespace Fosite.Props.C03
 open Fosite.Model
 
-/-! ### the full statement, and why it fails on the code as it stands (finding F1) -/
+/-! ### the full statement (proved so far for states where the PKCE session is in place: `pkce_binding_partial`) -/
 
 /-- the codes issued with a non-empty challenge in a trace: (signature, challenge, method) -/
 def challenged : List (Op × Out) → List (Nat × String × String)
@@ -147,14 +147,27 @@ def witness : List Op :=
     .redeem { clientId := "c1", credOk := true, code := { sig := some 1, exact := true }, redirect := "https://c1/cb", verifier := vBad },
     .redeem { clientId := "c1", credOk := true, code := { sig := some 1, exact := true }, redirect := "https://c1/cb", verifier := "" } ]
 
+/-- a second witness: two requests without any verifier (what the check found on the implementation) -/
+def witness2 : List Op :=
+  [ .setClient witnessClient,
+    .authorize { clientId := "c1", responseTypes := ["code"], redirect := "https://c1/cb", scopes := ["a"], grantScopes := ["a"],
+                 subject := "u", challenge := s256 vOK, method := "S256" },
+    .redeem { clientId := "c1", credOk := true, code := { sig := some 1, exact := true }, redirect := "https://c1/cb", verifier := "" },
+    .redeem { clientId := "c1", credOk := true, code := { sig := some 1, exact := true }, redirect := "https://c1/cb", verifier := "" },
+    .redeem { clientId := "c1", credOk := true, code := { sig := some 1, exact := true }, redirect := "https://c1/cb", verifier := vOK } ]
+
+def isTokens : Out → Bool
+  | .tokens .. => true
+  | _ => false
+
 set_option maxRecDepth 100000 in
-/-- The model (which mirrors `handler/pkce/handler.go` as it stands) violates the full statement:
-    the witness history ends with tokens for a verifier-less request.  The same history is replayed
-    against the implementation by the check (corpus entry `C03-F1`). -/
-theorem pkce_binding_counterexample : ¬ PkceBindingFull := by
-  intro h
-  have := h witness
-  revert this
+/-- Regression for finding F1 (fixed by "fix: keep the PKCE session until the code has been
+    exchanged"): on the repaired handler the witness histories respect the binding — the verifier-less
+    requests are refused however many attempts preceded them, and the rightful holder still succeeds. -/
+theorem witness_histories_respect_binding :
+    pkceRespected (trace {} witness) = true ∧ pkceRespected (trace {} witness2) = true ∧
+    ((trace {} witness).map (fun p => isTokens p.2)) = [false, false, false, false] ∧
+    ((trace {} witness2).map (fun p => isTokens p.2)) = [false, false, false, false, true] := by
   decide
 
 end Fosite.Props.C03
